@@ -195,6 +195,23 @@ theorem key_order_strict_weak :
 theorem string_roundtrip (l : Loc) (hne : l.parts ≠ []) : locFromChars (locChars l) = some l :=
   locFromChars_locChars l hne
 
+/-- the same with the operator of a multi-part location (`join{…}` / `order{…}`): whatever text
+    precedes the brace (any text free of `{`) is read back as the operator, together with the same
+    parts; a simple location has none -/
+theorem string_roundtrip_with_operator (op : List Char) (hop : ∀ c ∈ op, c ≠ '{') (l : Loc) (hne : l.parts ≠ []) :
+    locFromCharsOp (opLocChars op l) = some (l.opOf op, l) :=
+  locFromCharsOp_opLocChars op hop l hne
+
+/-- `locChars`/`locFromChars` (used by the serialisation models) are the `join` instance / the
+    operator-forgetting projection of the two functions above -/
+theorem string_model_is_join_instance (l : Loc) (s : List Char) :
+    locChars l = opLocChars ['j', 'o', 'i', 'n'] l ∧ locFromChars s = (locFromCharsOp s).map Prod.snd :=
+  ⟨locChars_eq_op l, locFromChars_eq_op s⟩
+
+example : locFromCharsOp (opLocChars "order".toList (.compound [⟨0, 12, .rev⟩, ⟨90, 100, .rev⟩]))
+    = some (some "order".toList, .compound [⟨0, 12, .rev⟩, ⟨90, 100, .rev⟩]) := by
+  apply string_roundtrip_with_operator <;> simp [Loc.parts]
+
 /-! ### non-vacuity -/
 example : (Loc.compound [⟨90, 100, .fwd⟩, ⟨0, 10, .fwd⟩]).OK 100 ∧ (Loc.simple ⟨20, 30, .rev⟩).OK 100 := by
   constructor <;> (refine ⟨by simp [Loc.parts], ?_⟩; intro p hp; simp [Loc.parts] at hp; rcases hp with rfl | rfl <;> simp [Part.OK]) <;> simp [Part.OK]
